@@ -358,6 +358,17 @@ func (s *Server) handleMessage(msg json.RawMessage) {
 
 	s.logger.Printf("Received: %s", req.Method)
 
+	// A handler that panics on an unexpected message must not take the whole
+	// server down: log it and, for a request, still send the one response owed.
+	defer func() {
+		if r := recover(); r != nil {
+			s.logger.Printf("panic while handling %s: %v", req.Method, r)
+			if req.ID != nil {
+				s.sendError(req.ID, InternalError, fmt.Sprintf("internal error: %v", r))
+			}
+		}
+	}()
+
 	// Handle the request
 	if req.ID != nil {
 		// It's a request expecting a response
